@@ -483,7 +483,10 @@ func (u *Unit) symVal(name string, t types.Type, entry bool) Val {
 		if entry {
 			return c.EntryAddrVar(n)
 		}
-		return c.Var(n, SAddr)
+		v := c.Var(n, SAddr)
+		// remembered: an address value that exists now cannot denote an object allocated later
+		u.symAddrs = append(u.symAddrs, v)
+		return v
 	}
 	if kind, s, ok := scalarKind(t); ok {
 		if kind == "addr" {
